@@ -106,8 +106,11 @@ func goodClone(in interface{}) (interface{}, error) {
 		if err != nil {
 			return nil, err
 		}
-		out := dynamic.NewMessage(x.GetMessageDescriptor())
-		if err := out.Unmarshal(b); err != nil {
+		// an empty instance that recognises what x recognises (descriptor, message factory,
+		// extension registry, learnt fields: proto.Clone of a dynamic message hands them on),
+		// filled from the wire form
+		out := protov1.Clone(x).(*dynamic.Message)
+		if err := out.Unmarshal(b); err != nil { // resets first
 			return nil, err
 		}
 		return out, nil
@@ -203,7 +206,7 @@ type kase struct {
 	Adapter string `json:"adapter"`
 	Op      string `json:"op"`                 // Clone | Copy
 	Src     string `json:"src"`                // spec name, or np:<kind>
-	SrcRep  string `json:"src_rep"`            // gen | dyn | np
+	SrcRep  string `json:"src_rep"`            // gen | dyn[+configuration][@provenance] (cfg.go, prov.go) | np
 	DstType string `json:"dst_type,omitempty"` // Copy: message full name, or np:<kind>
 	DstRep  string `json:"dst_rep,omitempty"`  // gen | dyn | np
 	DstFill string `json:"dst_fill,omitempty"` // Copy: "" = empty destination, else spec name whose content pre-populates it
@@ -279,9 +282,9 @@ func (k kase) pairing() string {
 	case isNP(k.Src) && isNP(k.DstType):
 		return "nonproto->nonproto"
 	case isNP(k.Src):
-		return "nonproto->" + repBase(k.DstRep) + descRel(false, "", k.DstRep)
+		return "nonproto->" + repBase(k.DstRep) + cfgRel("np", k.DstRep) + descRel(false, "", k.DstRep)
 	case isNP(k.DstType):
-		return repBase(k.SrcRep) + "->nonproto" + descRel(false, k.SrcRep, "")
+		return repBase(k.SrcRep) + "->nonproto" + cfgRel(k.SrcRep, "np") + descRel(false, k.SrcRep, "")
 	case k.DstType != k.srcType():
 		return pairClass("difftype:", k.SrcRep, k.DstRep)
 	}
@@ -310,7 +313,7 @@ func (k kase) buildDst() interface{} {
 	g := specsOfType[k.DstType][0].build()
 	proto.Reset(g)
 	if isDyn(k.DstRep) {
-		return dynamic.NewMessage(descOf(g, repProv(k.DstRep)))
+		return newDyn(descOf(g, repProv(k.DstRep)), repCfg(k.DstRep))
 	}
 	return g
 }
@@ -403,6 +406,13 @@ func runCase1(k kase) (o outcome) {
 	}
 	srcNorm, _ := normalize(src)
 	srcSnap := proto.Clone(srcNorm)
+	var srcDynSnap *dynamic.Message // what the source recognises and holds, when equality as dynamic messages is demanded
+	if sd, ok := src.(*dynamic.Message); ok && demandDynEqual(k.Op, k.SrcRep, k.DstRep) {
+		if srcDynSnap, err = dynSnapshot(sd); err != nil {
+			o.Internal = "cannot take a snapshot of the source: " + err.Error()
+			return
+		}
+	}
 
 	res, err, p := invoke(c, k, src, dst)
 	o.Reached = true
@@ -438,6 +448,12 @@ func runCase1(k kase) (o outcome) {
 		rb, _ := canon(res)
 		o.Observed = clause
 		add(clause, fmt.Sprintf("%s(%s): result is not proto.Equal to the source: result %s, source %s", k.Op, describe(k), short(rb), short(srcCanon)))
+	} else if what := dynEqualFinding(srcDynSnap, res); what != "" {
+		o.Observed = "not-equal:as-dynamic"
+		add("not-equal:as-dynamic", fmt.Sprintf("%s(%s): %s", k.Op, describe(k), what))
+	}
+	if what := dynEqualFinding(srcDynSnap, src); what != "" {
+		add("source-changed:as-dynamic", fmt.Sprintf("%s(%s) changed what the source recognises: %s", k.Op, describe(k), strings.Replace(what, "the result", "the source afterwards", 2)))
 	}
 	if after, err := canon(src); err != nil || !bytes.Equal(after, srcCanon) {
 		add("source-changed", fmt.Sprintf("%s(%s) changed the source: before %s after %s (%v)", k.Op, describe(k), short(srcCanon), short(after), err))
@@ -640,7 +656,7 @@ func shallow(m interface{}) interface{} {
 func mutatorCheck() []string {
 	var problems []string
 	for _, s := range pool {
-		for _, rep := range []string{"gen", "dyn"} {
+		for _, rep := range append([]string{"gen", "dyn"}, cfgReps...) {
 			for _, mode := range []string{"shallow", "independent"} {
 				a := s.instance(rep)
 				var b interface{}
@@ -667,7 +683,7 @@ func mutatorCheck() []string {
 					}
 				}
 				want := mode == "shallow" && hasRefContent(s.build())
-				if mode == "shallow" && rep == "dyn" {
+				if mode == "shallow" && isDyn(rep) {
 					// a shallow *dynamic.Message shares its value map as soon as the map exists
 					g := s.build()
 					want = !proto.Equal(g, g.ProtoReflect().New().Interface()) || len(g.ProtoReflect().GetUnknown()) > 0
